@@ -458,8 +458,19 @@ class BaseInterpolatableCompiler(BaseCompiler):
     def compile_variable_features(self, designSpaceDoc, ttFont, glyphSet):
         default_ufo = designSpaceDoc.findDefault().font
 
+        # like the per-master feature compilers, let the writers know which glyphs
+        # the designspace rules swap in, so these inherit the replaced glyphs' scripts
+        extraSubstitutions = defaultdict(set)
+        for rule in designSpaceDoc.rules:
+            for left, right in rule.subs:
+                extraSubstitutions[left].add(right)
+
         featureCompiler = VariableFeatureCompiler(
-            default_ufo, designSpaceDoc, ttFont=ttFont, glyphSet=glyphSet
+            default_ufo,
+            designSpaceDoc,
+            ttFont=ttFont,
+            glyphSet=glyphSet,
+            extraSubstitutions=extraSubstitutions,
         )
         featureCompiler.compile()
 
